@@ -28,10 +28,6 @@ Qed.
 Lemma traverse_as_str l : traverse as_str (map PStr l) = Some l.
 Proof. apply traverse_map. reflexivity. Qed.
 
-Lemma as_seq_mkseq k l : as_seq (mkseq k l) = Some (k, l).
-Proof. destruct k; reflexivity. Qed.
-Lemma as_items_mkseq k l : as_items (mkseq k l) = Some l.
-Proof. destruct k; reflexivity. Qed.
 
 Lemma list_eqb_refl {A} (eqb : A -> A -> bool) (l : list A) :
   (forall x, In x l -> eqb x x = true) -> list_eqb eqb l l = true.
@@ -64,7 +60,6 @@ Section PyvInd.
   Hypothesis Hlist : forall l, Forall P l -> P (PList l).
   Hypothesis Htuple : forall l, Forall P l -> P (PTuple l).
   Hypothesis Hdict : forall d, Forall (fun kv => P (snd kv)) d -> P (PDict d).
-  Hypothesis Hmapping : forall d, Forall (fun kv => P (snd kv)) d -> P (PMapping d).
 
   Fixpoint pyv_ind' (v : pyv) : P v :=
     match v with
@@ -79,8 +74,6 @@ Section PyvInd.
                              match l with [] => Forall_nil _ | x :: tl => Forall_cons _ (pyv_ind' x) (go tl) end) l)
     | PDict d => Hdict d ((fix go (d : list (pkey * pyv)) : Forall (fun kv => P (snd kv)) d :=
                              match d with [] => Forall_nil _ | kv :: tl => Forall_cons _ (pyv_ind' (snd kv)) (go tl) end) d)
-    | PMapping d => Hmapping d ((fix go (d : list (pkey * pyv)) : Forall (fun kv => P (snd kv)) d :=
-                             match d with [] => Forall_nil _ | kv :: tl => Forall_cons _ (pyv_ind' (snd kv)) (go tl) end) d)
     end.
 End PyvInd.
 
@@ -94,28 +87,24 @@ Lemma map_ext_Forall {A B} (f g : A -> B) l : Forall (fun x => f x = g x) l -> m
 Proof. induction 1; cbn; [reflexivity|]. rewrite H, IHForall. reflexivity. Qed.
 
 (* what json.loads returns is a fixed point: a second round trip changes nothing *)
-Lemma normalise_idem_lemma v : jsonable v = true -> normalise (normalise v) = normalise v.
+Lemma normalise_idem_all v : normalise (normalise v) = normalise v.
 Proof.
-  induction v using pyv_ind'; cbn [normalise jsonable]; intros J; try reflexivity.
+  induction v using pyv_ind'; cbn [normalise]; try reflexivity.
+  - f_equal. rewrite map_map. apply map_ext_Forall. exact H.
+  - f_equal. rewrite map_map. apply map_ext_Forall. exact H.
   - f_equal. rewrite map_map. apply map_ext_Forall.
-    rewrite forallb_forall in J. rewrite Forall_forall in *. intros x Hx. apply H; auto.
-  - f_equal. rewrite map_map. apply map_ext_Forall.
-    rewrite forallb_forall in J. rewrite Forall_forall in *. intros x Hx. apply H; auto.
-  - f_equal. rewrite map_map. apply map_ext_Forall.
-    rewrite forallb_forall in J. rewrite Forall_forall in *. intros [k x] Hx. cbn.
-    rewrite norm_key_idem. f_equal. apply (H _ Hx). apply (J _ Hx).
+    rewrite Forall_forall in *. intros [k x] Hx. rewrite norm_key_idem. f_equal. apply (H _ Hx).
 Qed.
 
-Lemma normalise_is_json_lemma v : jsonable v = true -> is_json (normalise v) = true.
+Lemma normalise_is_json_lemma v : is_json (normalise v) = true.
 Proof.
-  induction v using pyv_ind'; cbn [normalise jsonable is_json]; intros J; try reflexivity.
-  - rewrite forallb_forall in *. intros y Hy. apply in_map_iff in Hy. destruct Hy as [x [E Hx]]. subst.
+  induction v using pyv_ind'; cbn [normalise is_json]; try reflexivity.
+  - rewrite forallb_forall. intros y Hy. apply in_map_iff in Hy. destruct Hy as [x [E Hx]]. subst.
     rewrite Forall_forall in H. apply H; auto.
-  - rewrite forallb_forall in *. intros y Hy. apply in_map_iff in Hy. destruct Hy as [x [E Hx]]. subst.
+  - rewrite forallb_forall. intros y Hy. apply in_map_iff in Hy. destruct Hy as [x [E Hx]]. subst.
     rewrite Forall_forall in H. apply H; auto.
-  - rewrite forallb_forall in *. intros y Hy. apply in_map_iff in Hy. destruct Hy as [[k x] [E Hx]]. subst.
-    rewrite Forall_forall in H. destruct k; cbn; apply (H _ Hx); apply (J _ Hx).
-  - discriminate.
+  - rewrite forallb_forall. intros y Hy. apply in_map_iff in Hy. destruct Hy as [[k x] [E Hx]]. subst.
+    rewrite Forall_forall in H. destruct k; cbn; apply (H _ Hx).
 Qed.
 
 Lemma normalise_fix_lemma v : is_json v = true -> normalise v = v.
@@ -126,14 +115,6 @@ Proof.
   - f_equal. rewrite <- (map_id d) at 2. apply map_ext_Forall.
     rewrite forallb_forall in J. rewrite Forall_forall in *. intros [k x] Hx. specialize (J _ Hx). cbn in *.
     destruct k; [|discriminate]. cbn. f_equal. apply (H _ Hx). exact J.
-Qed.
-
-Lemma is_json_jsonable v : is_json v = true -> jsonable v = true.
-Proof.
-  induction v using pyv_ind'; cbn [jsonable is_json]; intros J; try reflexivity; try discriminate.
-  - rewrite forallb_forall in *. rewrite Forall_forall in H. intros x Hx. apply H; auto.
-  - rewrite forallb_forall in *. rewrite Forall_forall in H. intros [k x] Hx. specialize (J _ Hx).
-    destruct k; [|discriminate]. apply (H _ Hx). exact J.
 Qed.
 
 (* ------------------------------------------------------------------------------------------ *)
@@ -173,8 +154,8 @@ Qed.
 
 Lemma joint_roundtrip x : joint_from_dict G (joint_to_dict G x) = Some x.
 Proof.
-  destruct x as [k ns l m v]. unfold joint_from_dict, joint_to_dict, get_mat. cbn.
-  rewrite as_seq_mkseq. cbn. rewrite traverse_as_str. rewrite !(mdeser_mser G GOK). reflexivity.
+  destruct x as [ns l m v]. unfold joint_from_dict, joint_to_dict, get_mat. cbn -[traverse].
+  rewrite traverse_as_str. cbn. rewrite !(mdeser_mser G GOK). reflexivity.
 Qed.
 
 Lemma dist_roundtrip x : dist_from_dict G (dist_to_dict G x) = Some x.
@@ -490,12 +471,10 @@ Lemma as_opt_bool o : as_opt as_bool (of_opt PBool o) = Some o.
 Proof. destruct o; reflexivity. Qed.
 Lemma as_opt_num o : as_opt as_num (of_opt of_num o) = Some o.
 Proof. destruct o as [[z|f]|]; reflexivity. Qed.
-Lemma str_seq_mkseq k l : str_seq (mkseq k (map PStr l)) = Some (k, l).
-Proof. unfold str_seq. rewrite as_seq_mkseq. cbn. rewrite traverse_as_str. reflexivity. Qed.
-Lemma str_seq_tuple l : str_seq (PTuple (map PStr l)) = Some (STuple, l).
-Proof. apply (str_seq_mkseq STuple). Qed.
-Lemma str_seq_list l : str_seq (PList (map PStr l)) = Some (SList, l).
-Proof. apply (str_seq_mkseq SList). Qed.
+Lemma str_seq_tuple l : str_seq (PTuple (map PStr l)) = Some l.
+Proof. unfold str_seq. cbn [as_items]. apply traverse_as_str. Qed.
+Lemma str_seq_list l : str_seq (PList (map PStr l)) = Some l.
+Proof. unfold str_seq. cbn [as_items]. apply traverse_as_str. Qed.
 
 Lemma sim_roundtrip s : sim_from_dict (sim_to_dict s) = Some s.
 Proof.
@@ -521,28 +500,28 @@ Proof.
   apply traverse_map. intros x Hx. apply stmt_roundtrip. rewrite forallb_forall in W. apply W. exact Hx.
 Qed.
 
-Lemma derivs_to_py_seq d : str_seq (derivs_to_py G d) = Some (STuple, derivs_texts G d).
+Lemma derivs_to_py_seq d : str_seq (derivs_to_py G d) = Some (derivs_texts G d).
 Proof.
-  destruct d as [l|k l]; cbn [derivs_to_py derivs_texts].
+  destruct d as [l|l]; cbn [derivs_to_py derivs_texts].
   - rewrite <- map_map. apply str_seq_tuple.
   - apply str_seq_tuple.
 Qed.
 
 Lemma est_roundtrip e : est_from_dict G (est_to_dict G e) = Some (est_flat G e).
 Proof.
-  destruct e as [me ia pu ev mx la isa ni au ke rk re pk pr de ie [so rt at_ tool]].
+  destruct e as [me ia pu ev mx la isa ni au ke re pr de ie [so rt at_ tool]].
   unfold est_from_dict, est_to_dict, common_items, common_from, dget_def, est_flat, est_with.
-  cbn -[as_opt str_seq mkseq derivs_to_py derivs_texts].
-  rewrite !as_opt_str, !as_opt_num, !as_opt_int, !as_opt_bool, !str_seq_mkseq, derivs_to_py_seq.
+  cbn -[as_opt str_seq derivs_to_py derivs_texts].
+  rewrite !as_opt_str, !as_opt_num, !as_opt_int, !as_opt_bool, !str_seq_tuple, derivs_to_py_seq.
   reflexivity.
 Qed.
 
-Lemma derivs_canon_flat d : derivs_canon G d = true -> DStrs G STuple (derivs_texts G d) = d.
-Proof. destruct d as [l|[|] l]; cbn; intros H; try discriminate. reflexivity. Qed.
+Lemma derivs_canon_flat d : derivs_canon G d = true -> DStrs G (derivs_texts G d) = d.
+Proof. destruct d as [l|l]; cbn; intros H; try discriminate. reflexivity. Qed.
 
 Lemma est_flat_canon e : derivs_canon G (es_derivatives G e) = true -> est_flat G e = e.
 Proof.
-  destruct e as [me ia pu ev mx la isa ni au ke rk re pk pr de ie [so rt at_ tool]]. cbn. intros H.
+  destruct e as [me ia pu ev mx la isa ni au ke re pr de ie [so rt at_ tool]]. cbn. intros H.
   unfold est_flat, est_with. cbn. rewrite (derivs_canon_flat _ H). reflexivity.
 Qed.
 
@@ -568,15 +547,18 @@ Proof.
   rewrite (H x (or_introl eq_refl)), IH; [reflexivity|]. intros; apply H; right; assumption.
 Qed.
 
+Lemma cats_roundtrip c : cats_of_py (cats_to_py c) = Some c.
+Proof. destruct c; reflexivity. Qed.
+
 Lemma column_roundtrip c : column_from_dict G (column_to_dict G c) = Some c.
 Proof.
   destruct c as [nm ty u sc co ca dr dt de]. unfold column_from_dict, column_to_dict, column_items.
-  cbn -[as_opt]. rewrite (udeser_user G GOK), as_opt_bool, as_opt_str. reflexivity.
+  cbn -[as_opt cats_of_py cats_to_py]. rewrite (udeser_user G GOK), as_opt_bool, as_opt_str, cats_roundtrip. reflexivity.
 Qed.
 Lemma column_roundtrip_di c : column_from_dict G (column_to_dict_di G c) = Some c.
 Proof.
   destruct c as [nm ty u sc co ca dr dt de]. unfold column_from_dict, column_to_dict_di.
-  cbn -[as_opt]. rewrite (udeser_ustr G GOK), as_opt_bool, as_opt_str. reflexivity.
+  cbn -[as_opt cats_of_py cats_to_py]. rewrite (udeser_ustr G GOK), as_opt_bool, as_opt_str, cats_roundtrip. reflexivity.
 Qed.
 
 Definition di_nopath (x : datainfo G) : datainfo G :=
@@ -627,8 +609,6 @@ Lemma normalise_of_num n : normalise (of_num n) = of_num n.
 Proof. destruct n; reflexivity. Qed.
 Lemma normalise_of_opt {A} (f : A -> pyv) o : (forall a, normalise (f a) = f a) -> normalise (of_opt f o) = of_opt f o.
 Proof. intros H. destruct o; cbn; [apply H | reflexivity]. Qed.
-Lemma normalise_mkseq k l : normalise (mkseq k l) = PList (map normalise l).
-Proof. destruct k; reflexivity. Qed.
 Lemma map_normalise_PStr l : map normalise (map PStr l) = map PStr l.
 Proof. rewrite map_map. reflexivity. Qed.
 
@@ -660,30 +640,28 @@ Hypothesis GOK : engine_ok G.
 Lemma normal_json x : normal_from_dict G (normalise (normal_to_dict G x)) = Some x.
 Proof. destruct x as [n l m v]. exact (normal_roundtrip G GOK (mkNormal G n l m v)). Qed.
 
-Lemma joint_json x :
-  joint_from_dict G (normalise (joint_to_dict G x)) =
-  Some (mkJoint G SList (jn_names G x) (jn_level G x) (jn_mean G x) (jn_var G x)).
+Lemma joint_json x : joint_from_dict G (normalise (joint_to_dict G x)) = Some x.
 Proof.
-  destruct x as [k ns l m v]. unfold joint_from_dict, joint_to_dict, get_mat.
-  cbn -[mkseq normalise]. cbn [normalise map norm_key]. rewrite normalise_mkseq, map_normalise_PStr.
-  cbn. rewrite traverse_as_str. rewrite !(mdeser_mser G GOK). reflexivity.
+  destruct x as [ns l m v]. unfold joint_from_dict, joint_to_dict, get_mat.
+  cbn -[normalise traverse]. cbn [normalise map norm_key]. rewrite map_normalise_PStr.
+  cbn -[traverse]. rewrite traverse_as_str. cbn. rewrite !(mdeser_mser G GOK). reflexivity.
 Qed.
 
-Lemma dist_json_lemma x : dist_from_dict G (normalise (dist_to_dict G x)) = Some (dist_json G x).
+Lemma dist_json_lemma x : dist_from_dict G (normalise (dist_to_dict G x)) = Some x.
 Proof.
-  destruct x as [n|j]; unfold dist_from_dict; cbn [dist_to_dict dist_json].
+  destruct x as [n|j]; unfold dist_from_dict; cbn [dist_to_dict].
   - rewrite normal_json. reflexivity.
   - rewrite joint_json. destruct j; reflexivity.
 Qed.
 
-Lemma rvs_json_lemma r : rvs_from_dict G (normalise (rvs_to_dict G r)) = Some (rvs_json G r).
+Lemma rvs_json_lemma r : rvs_from_dict G (normalise (rvs_to_dict G r)) = Some r.
 Proof.
-  destruct r as [ds e p]. unfold rvs_from_dict, rvs_to_dict, rvs_json.
+  destruct r as [ds e p]. unfold rvs_from_dict, rvs_to_dict.
   cbn -[hier_from_dict hier_to_dict dist_from_dict dist_to_dict normalise traverse].
   cbn [normalise map norm_key].
   cbn -[hier_from_dict hier_to_dict dist_from_dict dist_to_dict normalise traverse].
   rewrite !hier_json. rewrite map_map.
-  rewrite (traverse_map' (dist_from_dict G) (fun x => normalise (dist_to_dict G x)) (dist_json G));
+  rewrite (traverse_map (dist_from_dict G) (fun x => normalise (dist_to_dict G x)));
     [reflexivity|]. intros; apply dist_json_lemma.
 Qed.
 
@@ -760,9 +738,9 @@ Proof.
   rewrite map_map. apply traverse_map. intros x Hx. apply stmt_json. rewrite forallb_forall in W. apply W. exact Hx.
 Qed.
 
-Lemma derivs_to_py_json d : str_seq (normalise (derivs_to_py G d)) = Some (SList, derivs_texts G d).
+Lemma derivs_to_py_json d : str_seq (normalise (derivs_to_py G d)) = Some (derivs_texts G d).
 Proof.
-  destruct d as [l|k l]; cbn [derivs_to_py derivs_texts normalise].
+  destruct d as [l|l]; cbn [derivs_to_py derivs_texts normalise].
   - rewrite <- (map_map (tup_str G) PStr), map_normalise_PStr. apply str_seq_list.
   - rewrite map_normalise_PStr. apply str_seq_list.
 Qed.
@@ -777,12 +755,14 @@ Qed.
 
 Lemma est_json_lemma e : est_from_dict G (normalise (est_to_dict G e)) = Some (est_json G e).
 Proof.
-  destruct e as [me ia pu ev mx la isa ni au ke rk re pk pr de ie [so rt at_ tool]].
+  destruct e as [me ia pu ev mx la isa ni au ke re pr de ie [so rt at_ tool]].
   unfold est_from_dict, est_to_dict, common_items, common_from, dget_def, est_json, est_with.
-  cbn -[as_opt str_seq mkseq derivs_to_py derivs_texts normalise of_opt].
+  cbn -[as_opt str_seq derivs_to_py derivs_texts normalise of_opt].
   cbn [normalise map norm_key app].
-  cbn -[as_opt str_seq mkseq derivs_to_py derivs_texts normalise of_opt].
-  rewrite !normalise_mkseq, !map_normalise_PStr.
+  cbn -[as_opt str_seq derivs_to_py derivs_texts normalise of_opt].
+  change (normalise (PTuple (map PStr pr))) with (PList (map normalise (map PStr pr))).
+  change (normalise (PTuple (map PStr re))) with (PList (map normalise (map PStr re))).
+  rewrite !map_normalise_PStr.
   rewrite !(normalise_of_opt); try apply normalise_of_num; try reflexivity.
   rewrite !as_opt_str, !as_opt_num, !as_opt_int, !as_opt_bool, !str_seq_list, derivs_to_py_json.
   reflexivity.
@@ -803,19 +783,24 @@ Proof.
   intros; apply step_json_lemma.
 Qed.
 
+Lemma cats_json_lemma c : cats_of_py (normalise (cats_to_py c)) = Some (cats_json c).
+Proof. destruct c; reflexivity. Qed.
+
 Lemma column_json_di c : column_from_dict G (normalise (column_to_dict_di G c)) = Some (column_json G c).
 Proof.
   destruct c as [nm ty u sc co ca dr dt de]. unfold column_from_dict, column_to_dict_di, column_json.
-  cbn -[as_opt normalise of_opt]. cbn [normalise map norm_key]. cbn -[as_opt normalise of_opt].
+  cbn -[as_opt normalise of_opt cats_of_py cats_to_py cats_json]. cbn [normalise map norm_key].
+  cbn -[as_opt normalise of_opt cats_of_py cats_to_py cats_json].
   rewrite !(normalise_of_opt); try reflexivity.
-  rewrite (udeser_ustr G GOK), as_opt_bool, as_opt_str. reflexivity.
+  rewrite (udeser_ustr G GOK), as_opt_bool, as_opt_str, cats_json_lemma. reflexivity.
 Qed.
 Lemma column_json_lemma c : column_from_dict G (normalise (column_to_dict G c)) = Some (column_json G c).
 Proof.
   destruct c as [nm ty u sc co ca dr dt de]. unfold column_from_dict, column_to_dict, column_items, column_json.
-  cbn -[as_opt normalise of_opt]. cbn [normalise map norm_key]. cbn -[as_opt normalise of_opt].
+  cbn -[as_opt normalise of_opt cats_of_py cats_to_py cats_json]. cbn [normalise map norm_key].
+  cbn -[as_opt normalise of_opt cats_of_py cats_to_py cats_json].
   rewrite !(normalise_of_opt); try reflexivity.
-  rewrite (udeser_user G GOK), as_opt_bool, as_opt_str. reflexivity.
+  rewrite (udeser_user G GOK), as_opt_bool, as_opt_str, cats_json_lemma. reflexivity.
 Qed.
 
 Lemma di_json_lemma x : di_from_dict G (normalise (di_to_dict G x)) = Some (di_json G x).
@@ -852,26 +837,32 @@ Qed.
 End WithEngine3.
 
 (* ------------------------------------------------------------------------------------------ *)
-(* JSON-stable objects come back unchanged                                                    *)
+(* JSON-stable objects come back unchanged *)
 (* ------------------------------------------------------------------------------------------ *)
-Lemma skind_eqb_eq a b : skind_eqb a b = true -> a = b.
-Proof. destruct a, b; cbn; intros; try discriminate; reflexivity. Qed.
-
 Lemma norm_items_fix d : is_json (PDict d) = true -> norm_items d = d.
 Proof. intros J. pose proof (normalise_fix_lemma (PDict d) J) as E. cbn in E. inversion E as [E']. rewrite E'. exact E'. Qed.
+
+Lemma map_normalise_fix l : forallb is_json l = true -> map normalise l = l.
+Proof.
+  intros J. rewrite <- (map_id l) at 2. apply map_ext_in. intros x Hx. apply normalise_fix_lemma.
+  rewrite forallb_forall in J. apply J. exact Hx.
+Qed.
+
+Lemma cats_json_fix c : cats_is_json c = true -> cats_json c = c.
+Proof.
+  destruct c as [|l|d]; cbn [cats_is_json cats_json]; intros J; [reflexivity| |].
+  - rewrite (map_normalise_fix l J). reflexivity.
+  - rewrite (norm_items_fix d J). reflexivity.
+Qed.
 
 Section JsonStable.
 Variable G : engine.
 
-Lemma dist_json_fix x : dist_json_ok G x = true -> dist_json G x = x.
-Proof. destruct x as [n|[k ns l m v]]; cbn; intros H; [reflexivity|]. apply skind_eqb_eq in H. subst. reflexivity. Qed.
-
 Lemma est_json_fix e : step_json_ok G (StEst G e) = true -> est_json G e = e.
 Proof.
-  destruct e as [me ia pu ev mx la isa ni au ke rk re pk pr de ie [so rt at_ tool]]. cbn. intros H.
-  repeat (apply andb_true_iff in H; destruct H as [H ?]).
-  apply skind_eqb_eq in H. apply skind_eqb_eq in H2. subst.
-  destruct de as [l|[|] l]; try discriminate.
+  destruct e as [me ia pu ev mx la isa ni au ke re pr de ie [so rt at_ tool]]. cbn. intros H.
+  apply andb_true_iff in H. destruct H as [H H0].
+  destruct de as [l|l]; try discriminate.
   unfold est_json, est_with. cbn. rewrite norm_items_fix; [reflexivity | exact H0].
 Qed.
 
@@ -885,12 +876,12 @@ Qed.
 Lemma column_json_fix c : column_json_ok G c = true -> column_json G c = c.
 Proof.
   destruct c as [nm ty u sc co ca dr dt de]. unfold column_json_ok, column_json. cbn. intros H.
-  rewrite (normalise_fix_lemma _ H). reflexivity.
+  rewrite (cats_json_fix _ H). reflexivity.
 Qed.
 End JsonStable.
 
 (* ------------------------------------------------------------------------------------------ *)
-(* the key                                                                                    *)
+(* strings *)
 (* ------------------------------------------------------------------------------------------ *)
 Lemma append_inv_head (a x y : string) : (a ++ x = a ++ y)%string -> x = y.
 Proof. induction a as [|c a IH]; cbn; intros H; [exact H|]. injection H as H. apply IH. exact H. Qed.
@@ -908,84 +899,6 @@ Proof.
     + exfalso. assert (String.length (String c a ++ x) = String.length (""%string ++ x)) as L by (rewrite H; reflexivity).
       rewrite !append_length in L. cbn in L. lia.
     + cbn in H. injection H as Hc Ht. subst. f_equal. apply IH. exact Ht.
-Qed.
-
-Section KeyLemmas.
-Variable G : engine.
-Variable dumps : pyv -> string.
-Variable digest : Type.
-Variable H : string -> digest.
-
-Lemma blank_with_meta m nm de pa : blank G (with_meta G m nm de pa) = blank G m.
-Proof. destruct m as [n d ps rv st es [cols p se mt] vt dv ot ie]. reflexivity. Qed.
-
-Lemma key_ignores_meta ds m nm de pa : key G dumps digest H ds (with_meta G m nm de pa) = key G dumps digest H ds m.
-Proof. unfold key. rewrite blank_with_meta. reflexivity. Qed.
-
-(* to_dict itself never mentions the name, the description or the path *)
-Lemma to_dict_ignores_meta m nm de pa : model_to_dict G (with_meta G m nm de pa) = model_to_dict G m.
-Proof. destruct m as [n d ps rv st es [cols p se mt] vt dv ot ie]. reflexivity. Qed.
-
-Lemma key_same_dict ds m m' :
-  model_to_dict G (blank G m) = model_to_dict G (blank G m') ->
-  key G dumps digest H ds m = key G dumps digest H ds m'.
-Proof. intros E. unfold key. rewrite E. reflexivity. Qed.
-
-Lemma key_separates_model ds m m' :
-  let d := model_to_dict G (blank G m) in let d' := model_to_dict G (blank G m') in
-  jsonable d = true -> jsonable d' = true ->
-  dumps_sep dumps d d' -> H_sep H (ds ++ dumps d)%string (ds ++ dumps d')%string ->
-  normalise d <> normalise d' ->
-  key G dumps digest H ds m <> key G dumps digest H ds m'.
-Proof.
-  cbn zeta. intros J J' DS HS N. unfold key. rewrite J, J'. intros E. injection E as E.
-  apply HS in E. apply append_inv_head in E. apply DS in E. contradiction.
-Qed.
-
-Lemma key_separates_dataset ds ds' m :
-  let d := model_to_dict G (blank G m) in
-  jsonable d = true -> H_sep H (ds ++ dumps d)%string (ds' ++ dumps d)%string -> ds <> ds' ->
-  key G dumps digest H ds m <> key G dumps digest H ds' m.
-Proof.
-  cbn zeta. intros J HS N. unfold key. rewrite J. intros E. injection E as E.
-  apply HS in E. apply append_inv_tail in E. contradiction.
-Qed.
-
-Lemma key_defined_iff ds m :
-  (exists k, key G dumps digest H ds m = Some k) <-> jsonable (model_to_dict G (blank G m)) = true.
-Proof.
-  unfold key. destruct (jsonable (model_to_dict G (blank G m))); split; intros X; try reflexivity.
-  - eexists; reflexivity.
-  - destruct X as [k X]. discriminate.
-  - discriminate.
-Qed.
-
-End KeyLemmas.
-
-(* equal keys (same data) => the two models have the same JSON image: no false sharing *)
-Lemma model_json_blank G m : model_json G (blank G m) = model_json G m.
-Proof. destruct m as [n d ps rv st es [cols p se mt] vt dv ot ie]. reflexivity. Qed.
-
-Lemma key_sound_lemma G (GOK : engine_ok G) dumps digest (H : string -> digest) ds m m' :
-  let d := model_to_dict G (blank G m) in let d' := model_to_dict G (blank G m') in
-  forallb (stmt_ok G) (m_statements G m) = true -> forallb (stmt_ok G) (m_statements G m') = true ->
-  depvars_ok G m -> depvars_ok G m' ->
-  (forall x, m_iie G m = Some x -> normalise x <> PNone) -> (forall x, m_iie G m' = Some x -> normalise x <> PNone) ->
-  dumps_sep dumps d d' -> H_sep H (ds ++ dumps d)%string (ds ++ dumps d')%string ->
-  key G dumps digest H ds m = key G dumps digest H ds m' -> key G dumps digest H ds m <> None ->
-  model_json G m = model_json G m'.
-Proof.
-  cbn zeta. intros W W' D D' I I' DS HS E NN. unfold key in *.
-  destruct (jsonable (model_to_dict G (blank G m))) eqn:J; [|contradiction].
-  destruct (jsonable (model_to_dict G (blank G m'))) eqn:J'; [|discriminate].
-  injection E as E. apply HS in E. apply append_inv_head in E. apply DS in E.
-  assert (model_from_dict G (normalise (model_to_dict G (blank G m))) = Some (model_json G (blank G m))) as A.
-  { apply (model_json_lemma G GOK); destruct m as [n d ps rv st es [cols p se mt] vt dv ot ie]; assumption. }
-  assert (model_from_dict G (normalise (model_to_dict G (blank G m'))) = Some (model_json G (blank G m'))) as B.
-  { apply (model_json_lemma G GOK); destruct m' as [n d ps rv st es [cols p se mt] vt dv ot ie]; assumption. }
-  rewrite model_json_blank in A, B. rewrite E in A. rewrite A in B.
-  assert (forall (x y : model G), Some x = Some y -> x = y) as SI by (intros x y X; inversion X; reflexivity).
-  apply SI. exact B.
 Qed.
 
 (* ------------------------------------------------------------------------------------------ *)
@@ -1026,10 +939,10 @@ Proof. apply (mat_eqb_ok G GOK). reflexivity. Qed.
 
 Lemma dist_eqb_refl x : dist_eqb G x x = true.
 Proof.
-  destruct x as [[n l m v]|[k ns l m v]]; cbn.
+  destruct x as [[n l m v]|[ns l m v]]; cbn.
   - unfold normal_eqb. cbn. rewrite !String.eqb_refl, !(expr_eqb_refl G GOK). reflexivity.
   - unfold joint_eqb. cbn. rewrite String.eqb_refl, !mat_eqb_refl, list_eqb_refl.
-    + destruct k; reflexivity.
+    + reflexivity.
     + intros; apply String.eqb_refl.
 Qed.
 
@@ -1072,34 +985,24 @@ Proof.
   destruct (P _ _ Hin) as [NDa _]. rewrite (adj_lookup_NoDup adj NDa v r Hv). apply (expr_eqb_refl G GOK).
 Qed.
 
-Lemma cs_eq_refl s : graph_wf G (cs_g G s) = true ->
-  cs_eq G s s = match dosing G (cs_g G s) with Some _ => Some true | None => None end.
+(* == is defined and reflexive on every well-formed system, dosed or not *)
+Lemma cs_eq_refl s : graph_wf G (cs_g G s) = true -> cs_eq G s s = true.
 Proof.
   intros W. unfold cs_eq. rewrite (expr_eqb_refl G GOK), (dod_eqb_refl _ W). cbn.
-  destruct (dosing G (cs_g G s)) as [x|]; [|reflexivity].
+  destruct (dosing G (cs_g G s)) as [x|]; [|reflexivity]. cbn.
   rewrite list_eqb_refl; [reflexivity|]. intros; apply (comp_eqb_refl G GOK).
 Qed.
 
-(* a statement on which == is defined: a well-formed system with a dosing compartment *)
 Definition stmt_eq_ok (s : stmt G) : bool :=
-  match s with
-  | SAssign _ _ => true
-  | SOde _ c => graph_wf G (cs_g G c) && match dosing G (cs_g G c) with Some _ => true | None => false end
-  end.
+  match s with SAssign _ _ => true | SOde _ c => graph_wf G (cs_g G c) end.
 
-Lemma stmt_eq_refl s : stmt_eq_ok s = true -> stmt_eq G s s = Some true.
-Proof.
-  destruct s as [a|c]; cbn; intros H.
-  - rewrite assign_eqb_refl. reflexivity.
-  - apply andb_true_iff in H. destruct H as [W D]. rewrite (cs_eq_refl c W).
-    destruct (dosing G (cs_g G c)); [reflexivity | discriminate].
-Qed.
+Lemma stmt_eq_refl s : stmt_eq_ok s = true -> stmt_eq G s s = true.
+Proof. destruct s as [a|c]; cbn; intros H; [apply assign_eqb_refl | apply cs_eq_refl; exact H]. Qed.
 
-Lemma stmts_eq_refl l : forallb stmt_eq_ok l = true -> stmts_eq G l l = Some true.
+Lemma stmts_eq_refl l : forallb stmt_eq_ok l = true -> stmts_eq G l l = true.
 Proof.
-  intros H. unfold stmts_eq. rewrite Nat.eqb_refl. cbn.
-  induction l as [|x tl IH]; cbn; [reflexivity|]. cbn in H. apply andb_true_iff in H. destruct H as [H1 H2].
-  rewrite (stmt_eq_refl x H1). apply IH. exact H2.
+  intros H. unfold stmts_eq. rewrite Nat.eqb_refl. cbn. apply zip_all_refl. intros x Hx. apply stmt_eq_refl.
+  rewrite forallb_forall in H. apply H. exact Hx.
 Qed.
 
 End EqRefl.
@@ -1130,7 +1033,6 @@ Proof.
   - induction H as [|x tl Hx Htl IH]; [reflexivity|]. rewrite Hx. exact IH.
   - induction H as [|x tl Hx Htl IH]; [reflexivity|]. rewrite Hx. exact IH.
   - induction H as [|[k x] tl Hx Htl IH]; [reflexivity|]. cbn in Hx. rewrite pkey_same_refl, Hx. exact IH.
-  - induction H as [|[k x] tl Hx Htl IH]; [reflexivity|]. cbn in Hx. rewrite pkey_same_refl, Hx. exact IH.
 Qed.
 
 Lemma pyv_same_false a b : pyv_same a b = false -> a <> b.
@@ -1143,96 +1045,17 @@ Proof.
 Qed.
 
 Lemma model_json_stable G m :
-  forallb (dist_json_ok G) (rv_dists G (m_rvs G m)) = true -> forallb (step_json_ok G) (m_steps G m) = true ->
+  forallb (step_json_ok G) (m_steps G m) = true ->
   forallb (column_json_ok G) (di_columns G (m_datainfo G m)) = true ->
   (forall x, m_iie G m = Some x -> is_json x = true) ->
   model_json G m = strip G m.
 Proof.
-  destruct m as [n d ps [ds e p] st es [cols pa se mt] vt dv ot ie]. cbn. intros A B C D.
-  unfold model_json, strip, rvs_json, di_json. cbn.
-  rewrite (map_id_on (dist_json G)), (map_id_on (step_json G)), (map_id_on (column_json G)).
+  destruct m as [n d ps rv st es [cols pa se mt] vt dv ot ie]. cbn. intros B C D.
+  unfold model_json, strip, di_json. cbn.
+  rewrite (map_id_on (step_json G)), (map_id_on (column_json G)).
   - destruct ie as [x|]; [|reflexivity]. cbn. rewrite (normalise_fix_lemma x (D x eq_refl)). reflexivity.
   - intros x Hx. apply column_json_fix. rewrite forallb_forall in C. apply C. exact Hx.
   - intros x Hx. apply step_json_fix. rewrite forallb_forall in B. apply B. exact Hx.
-  - intros x Hx. apply dist_json_fix. rewrite forallb_forall in A. apply A. exact Hx.
-Qed.
-
-(* ------------------------------------------------------------------------------------------ *)
-(* statements of Properties.v whose proofs combine the lemmas above                            *)
-(* ------------------------------------------------------------------------------------------ *)
-Local Open Scope string_scope.
-Lemma estimation_step_roundtrip_thm :
-  forall G (e : eststep G), derivs_canon G (es_derivatives G e) = true ->
-    est_from_dict G (est_to_dict G e) = Some e.
-Proof. intros G e H. rewrite est_roundtrip, (est_flat_canon G e H). reflexivity. Qed.
-
-Lemma execution_steps_roundtrip_thm :
-  forall G (l : list (step G)), forallb (step_canon G) l = true ->
-    steps_from_dict G (steps_to_dict G l) = Some l.
-Proof.
-  intros G l H. rewrite steps_roundtrip. f_equal. apply map_id_on. intros x Hx. apply step_flat_canon.
-  rewrite forallb_forall in H. apply H. exact Hx.
-Qed.
-
-Lemma model_roundtrip_thm :
-  forall G, engine_ok G -> forall m : model G,
-    forallb (stmt_ok G) (m_statements G m) = true -> depvars_ok G m ->
-    forallb (step_canon G) (m_steps G m) = true -> m_iie G m <> Some PNone ->
-    model_from_dict G (model_to_dict G m) = Some (strip G m).
-Proof.
-  intros G GOK m W D C I. rewrite (model_roundtrip G GOK m W D I), (model_flat_canon G m C). reflexivity.
-Qed.
-
-Lemma compartmental_system_to_dict_injective_thm :
-  forall G, engine_ok G -> forall a b : csys G,
-    cs_ok G a = true -> cs_ok G b = true -> cs_to_dict G a = cs_to_dict G b -> a = b.
-Proof.
-  intros G GOK a b A B E. unfold cs_ok in *. apply andb_true_iff in A, B. destruct A as [A1 A2], B as [B1 B2].
-  pose proof (cs_roundtrip_lemma G GOK a A1 A2) as Ra. pose proof (cs_roundtrip_lemma G GOK b B1 B2) as Rb.
-  rewrite E in Ra. rewrite Ra in Rb. inversion Rb. reflexivity.
-Qed.
-
-Lemma parameter_roundtrip_eq_thm :
-  forall p, param_no_nan p = true ->
-    exists q, param_from_dict (param_to_dict p) = Some q /\ param_eqb q p = true.
-Proof. intros p H. exists p. split; [apply param_roundtrip | apply param_eqb_refl; exact H]. Qed.
-
-Lemma random_variables_roundtrip_eq_thm :
-  forall G, engine_ok G -> forall r : rvs G,
-    exists q, rvs_from_dict G (rvs_to_dict G r) = Some q /\ rvs_eqb G q r = true.
-Proof. intros G GOK r. exists r. split; [apply rvs_roundtrip | apply rvs_eqb_refl]; exact GOK. Qed.
-
-Lemma compartmental_system_roundtrip_eq_thm :
-  forall G, engine_ok G -> forall s : csys G,
-    cs_ok G s = true -> dosing G (cs_g G s) <> None ->
-    exists q, cs_from_dict G (cs_to_dict G s) = Some q /\ cs_eq G q s = Some true.
-Proof.
-  intros G GOK s W D. unfold cs_ok in W. apply andb_true_iff in W. destruct W as [W O]. exists s. split.
-  - apply cs_roundtrip_lemma; assumption.
-  - rewrite (cs_eq_refl G GOK s W). destruct (dosing G (cs_g G s)); [reflexivity | contradiction].
-Qed.
-
-Lemma statements_roundtrip_eq_thm :
-  forall G (GOK : engine_ok G) (l : list (stmt G)),
-    forallb (stmt_ok G) l = true -> forallb (stmt_eq_ok G) l = true ->
-    exists q, stmts_from_dict G (stmts_to_dict G l) = Some q /\ stmts_eq G q l = Some true.
-Proof.
-  intros G GOK l W D. exists l. split; [apply stmts_roundtrip | apply stmts_eq_refl]; assumption.
-Qed.
-
-Lemma model_json_roundtrip_thm :
-  forall G, engine_ok G -> forall m : model G,
-    forallb (stmt_ok G) (m_statements G m) = true -> depvars_ok G m ->
-    forallb (dist_json_ok G) (rv_dists G (m_rvs G m)) = true ->
-    forallb (step_json_ok G) (m_steps G m) = true ->
-    forallb (column_json_ok G) (di_columns G (m_datainfo G m)) = true ->
-    (forall x, m_iie G m = Some x -> is_json x = true /\ x <> PNone) ->
-    model_from_dict G (normalise (model_to_dict G m)) = Some (strip G m).
-Proof.
-  intros G GOK m W D A B C I.
-  rewrite (model_json_lemma G GOK m W D).
-  - f_equal. apply model_json_stable; try assumption. intros x Hx. apply (I x Hx).
-  - intros x Hx. destruct (I x Hx) as [J N]. rewrite (normalise_fix_lemma x J). exact N.
 Qed.
 
 (* ------------------------------------------------------------------------------------------ *)
@@ -1306,11 +1129,11 @@ Qed.
 
 Lemma cs_eq_same_enum a b :
   graph_wf G (cs_g G a) = true -> graph_wf G (cs_g G b) = true ->
-  cs_eq G a b = Some true -> same_enum G (cs_g G a) (cs_g G b) = true -> a = b.
+  cs_eq G a b = true -> same_enum G (cs_g G a) (cs_g G b) = true -> a = b.
 Proof.
   destruct a as [g t], b as [h t']. cbn [cs_g]. intros Wg Wh E S. unfold cs_eq in E. cbn [cs_g cs_t] in E.
-  destruct (expr_eqb G t t') eqn:Et; cbn in E; [|discriminate]. apply (expr_eqb_eq G GOK) in Et. subst t'.
-  destruct (dod_eqb G g h) eqn:D; cbn in E; [|discriminate].
+  apply andb_true_iff in E. destruct E as [E _]. apply andb_true_iff in E. destruct E as [Et D].
+  apply (expr_eqb_eq G GOK) in Et. subst t'.
   rewrite (graph_eq_of_same_enum g h Wg Wh D S). reflexivity.
 Qed.
 
@@ -1323,7 +1146,7 @@ Qed.
 
 (* for systems that == calls equal: same dictionary <-> same enumeration order *)
 Lemma cs_dict_iff_order a b :
-  cs_ok G a = true -> cs_ok G b = true -> cs_eq G a b = Some true ->
+  cs_ok G a = true -> cs_ok G b = true -> cs_eq G a b = true ->
   (cs_to_dict G a = cs_to_dict G b <-> same_enum G (cs_g G a) (cs_g G b) = true).
 Proof.
   intros A B E. unfold cs_ok in A, B. apply andb_true_iff in A, B. destruct A as [A1 A2], B as [B1 B2]. split.
@@ -1344,23 +1167,23 @@ Proof.
 Qed.
 
 Lemma stmt_eq_same_enum a b :
-  stmt_ok G a = true -> stmt_ok G b = true -> stmt_eq G a b = Some true -> stmt_same_enum G a b = true -> a = b.
+  stmt_ok G a = true -> stmt_ok G b = true -> stmt_eq G a b = true -> stmt_same_enum G a b = true -> a = b.
 Proof.
   destruct a as [x|x], b as [y|y]; cbn; intros A B E S; try discriminate.
-  - injection E as E. rewrite (assign_eqb_eq x y E). reflexivity.
+  - rewrite (assign_eqb_eq x y E). reflexivity.
   - unfold cs_ok in A, B. apply andb_true_iff in A, B. destruct A as [A _], B as [B _].
     rewrite (cs_eq_same_enum G GOK x y A B E S). reflexivity.
 Qed.
 
 Lemma stmts_eq_same_enum : forall l l',
   forallb (stmt_ok G) l = true -> forallb (stmt_ok G) l' = true ->
-  stmts_eq G l l' = Some true -> zip_all (stmt_same_enum G) l l' = true -> l = l'.
+  stmts_eq G l l' = true -> zip_all (stmt_same_enum G) l l' = true -> l = l'.
 Proof.
   unfold stmts_eq. induction l as [|x tl IH]; destruct l' as [|y tl']; cbn; intros A B E S; try discriminate; [reflexivity|].
-  apply andb_true_iff in A, B, S. destruct A as [A1 A2], B as [B1 B2], S as [S1 S2].
-  destruct (Nat.eqb (List.length tl) (List.length tl')) eqn:L; cbn in E; [|discriminate].
-  destruct (stmt_eq G x y) as [[|]|] eqn:Exy; try discriminate.
-  rewrite (stmt_eq_same_enum x y A1 B1 Exy S1). f_equal. apply IH; try assumption. rewrite L. cbn. exact E.
+  apply andb_true_iff in A, B, S, E. destruct A as [A1 A2], B as [B1 B2], S as [S1 S2], E as [L E].
+  apply andb_true_iff in E. destruct E as [Exy E].
+  rewrite (stmt_eq_same_enum x y A1 B1 Exy S1). f_equal. apply IH; try assumption.
+  apply andb_true_iff. split; assumption.
 Qed.
 End StmtsOrder.
 
@@ -1477,6 +1300,563 @@ Proof.
 Qed.
 End Builder.
 
+
+(* ------------------------------------------------------------------------------------------ *)
+(* sorted(): the result is the same for every arrangement of the same elements                 *)
+(* ------------------------------------------------------------------------------------------ *)
+From Coq Require Import Permutation Sorted.
+
+Section SortBy.
+Context {A K : Type} (key : A -> K) (leb : K -> K -> bool).
+Hypothesis leb_total : forall x y, leb x y = true \/ leb y x = true.
+Hypothesis leb_trans : forall x y z, leb x y = true -> leb y z = true -> leb x z = true.
+Hypothesis leb_antisym : forall x y, leb x y = true -> leb y x = true -> x = y.
+
+Definition sortedk (l : list A) : Prop := StronglySorted (fun x y => leb (key x) (key y) = true) l.
+
+Lemma ins_by_perm a l : Permutation (ins_by key leb a l) (a :: l).
+Proof.
+  induction l as [|x tl IH]; cbn; [apply Permutation_refl|].
+  destruct (leb (key a) (key x)); [apply Permutation_refl|].
+  eapply Permutation_trans; [apply perm_skip; exact IH | apply perm_swap].
+Qed.
+
+Lemma sort_by_perm l : Permutation (sort_by key leb l) l.
+Proof.
+  induction l as [|x tl IH]; cbn; [constructor|].
+  eapply Permutation_trans; [apply ins_by_perm | apply perm_skip; exact IH].
+Qed.
+
+Lemma ins_by_sorted a l : sortedk l -> sortedk (ins_by key leb a l).
+Proof.
+  induction l as [|x tl IH]; cbn; intros S.
+  - constructor; [constructor | constructor].
+  - inversion S as [|? ? S' F]; subst. destruct (leb (key a) (key x)) eqn:E.
+    + constructor; [exact S|]. constructor; [exact E|].
+      eapply Forall_impl; [|exact F]. intros y Hy. cbn in Hy. eapply leb_trans; eassumption.
+    + constructor; [apply IH; exact S'|].
+      eapply Permutation_Forall; [apply Permutation_sym, ins_by_perm|].
+      constructor; [|exact F]. destruct (leb_total (key a) (key x)) as [X|X]; [congruence | exact X].
+Qed.
+
+Lemma sort_by_sorted l : sortedk (sort_by key leb l).
+Proof. induction l as [|x tl IH]; cbn; [constructor | apply ins_by_sorted; exact IH]. Qed.
+
+Lemma sorted_perm_unique : forall l1 l2,
+  sortedk l1 -> sortedk l2 -> Permutation l1 l2 -> NoDup (map key l1) -> l1 = l2.
+Proof.
+  induction l1 as [|x t1 IH]; intros l2 S1 S2 P ND.
+  - apply Permutation_nil in P. subst. reflexivity.
+  - destruct l2 as [|y t2]; [apply Permutation_sym, Permutation_nil in P; discriminate|].
+    inversion S1 as [|? ? S1' F1]; subst. inversion S2 as [|? ? S2' F2]; subst.
+    inversion ND as [|? ? Nk ND']; subst.
+    assert (x = y) as Exy.
+    { assert (In y (x :: t1)) as Hy by (eapply Permutation_in; [apply Permutation_sym; exact P | left; reflexivity]).
+      assert (In x (y :: t2)) as Hx by (eapply Permutation_in; [exact P | left; reflexivity]).
+      destruct Hy as [Hy|Hy]; [exact Hy|]. destruct Hx as [Hx|Hx]; [symmetry; exact Hx|].
+      rewrite Forall_forall in F1, F2. specialize (F1 _ Hy). specialize (F2 _ Hx). cbn in F1, F2.
+      exfalso. apply Nk. rewrite (leb_antisym _ _ F1 F2). apply in_map. exact Hy. }
+    subst y. f_equal. apply IH; try assumption. eapply Permutation_cons_inv. exact P.
+Qed.
+
+Lemma sort_by_unique l1 l2 : Permutation l1 l2 -> NoDup (map key l1) -> sort_by key leb l1 = sort_by key leb l2.
+Proof.
+  intros P ND. apply sorted_perm_unique; try apply sort_by_sorted.
+  - eapply Permutation_trans; [apply sort_by_perm|]. eapply Permutation_trans; [exact P | apply Permutation_sym, sort_by_perm].
+  - eapply Permutation_NoDup; [| exact ND]. apply Permutation_map. apply Permutation_sym, sort_by_perm.
+Qed.
+End SortBy.
+
+(* str comparison is a total order *)
+Lemma nat_of_ascii_inj x y : nat_of_ascii x = nat_of_ascii y -> x = y.
+Proof. intros E. rewrite <- (ascii_nat_embedding x), <- (ascii_nat_embedding y), E. reflexivity. Qed.
+
+Ltac ltb_cases :=
+  repeat match goal with
+         | H : context [Nat.ltb ?a ?b] |- _ => let E := fresh "L" in destruct (Nat.ltb a b) eqn:E;
+               [apply Nat.ltb_lt in E | apply Nat.ltb_ge in E]
+         | |- context [Nat.ltb ?a ?b] => let E := fresh "L" in destruct (Nat.ltb a b) eqn:E;
+               [apply Nat.ltb_lt in E | apply Nat.ltb_ge in E]
+         end.
+
+Lemma str_leb_total a : forall b, str_leb a b = true \/ str_leb b a = true.
+Proof.
+  induction a as [|x a IH]; intros b; [left; reflexivity|].
+  destruct b as [|y b]; [right; reflexivity|]. cbn [str_leb]. ltb_cases; try (left; reflexivity); try (right; reflexivity); try lia.
+  apply IH.
+Qed.
+
+Lemma str_leb_antisym a : forall b, str_leb a b = true -> str_leb b a = true -> a = b.
+Proof.
+  induction a as [|x a IH]; intros b; destruct b as [|y b]; cbn [str_leb]; intros H1 H2; try discriminate; [reflexivity|].
+  ltb_cases; try discriminate; try lia.
+  assert (nat_of_ascii x = nat_of_ascii y) as E by lia. apply nat_of_ascii_inj in E. subst. f_equal. apply IH; assumption.
+Qed.
+
+Lemma str_leb_trans a : forall b c, str_leb a b = true -> str_leb b c = true -> str_leb a c = true.
+Proof.
+  induction a as [|x a IH]; intros b c H1 H2; [reflexivity|].
+  destruct b as [|y b]; [discriminate|]. destruct c as [|z c]; [discriminate|]. cbn [str_leb] in *.
+  ltb_cases; try reflexivity; try discriminate; try lia.
+  eapply IH; eassumption.
+Qed.
+
+Lemma nat_leb_total x y : Nat.leb x y = true \/ Nat.leb y x = true.
+Proof. destruct (Nat.leb_spec x y); [left; reflexivity | right; apply Nat.leb_le; lia]. Qed.
+Lemma nat_leb_trans x y z : Nat.leb x y = true -> Nat.leb y z = true -> Nat.leb x z = true.
+Proof. rewrite !Nat.leb_le. lia. Qed.
+Lemma nat_leb_antisym x y : Nat.leb x y = true -> Nat.leb y x = true -> x = y.
+Proof. rewrite !Nat.leb_le. lia. Qed.
+
+(* ------------------------------------------------------------------------------------------ *)
+(* the order in which ModelHash encodes a system: well formed, and blind to the original order *)
+(* ------------------------------------------------------------------------------------------ *)
+Section Canon.
+Variable G : engine.
+Hypothesis GOK : engine_ok G.
+
+Definition sorted_nodes (g : graph G) : list (node G) := sort_by (node_name G) str_leb (g_nodes G g).
+Definition poskey (ns : list (node G)) (vr : node G * expr G) : nat := pos_in G (fst vr) ns.
+
+Lemma g_nodes_canon g : g_nodes G (graph_canon G g) = sorted_nodes g.
+Proof. unfold graph_canon, g_nodes, sorted_nodes. rewrite map_map. cbn. apply map_id. Qed.
+
+Lemma sorted_nodes_perm g : Permutation (sorted_nodes g) (g_nodes G g).
+Proof. apply sort_by_perm. Qed.
+
+Lemma In_sorted_nodes g n : In n (sorted_nodes g) <-> In n (g_nodes G g).
+Proof. split; apply Permutation_in; [apply sorted_nodes_perm | apply Permutation_sym, sorted_nodes_perm]. Qed.
+
+Lemma adj_of_In g n adj : NoDup (g_nodes G g) -> In (n, adj) g -> adj_of G n g = adj.
+Proof. intros ND Hin. unfold adj_of. rewrite (g_lookup_NoDup G GOK g ND n adj Hin). reflexivity. Qed.
+
+Lemma In_g_nodes_entry g n : In n (g_nodes G g) -> exists adj, In (n, adj) g.
+Proof. unfold g_nodes. intros H. apply in_map_iff in H. destruct H as [[m a] [E Hin]]. cbn in E. subst. exists a. exact Hin. Qed.
+
+Lemma canon_wf g : graph_wf G g = true -> graph_wf G (graph_canon G g) = true.
+Proof.
+  intros W. destruct (graph_wf_props G GOK g W) as [ND P]. apply (wfP_graph_wf G GOK). split.
+  - rewrite g_nodes_canon. eapply Permutation_NoDup; [apply Permutation_sym, sorted_nodes_perm | exact ND].
+  - intros n adj Hin. rewrite g_nodes_canon. unfold graph_canon in Hin. apply in_map_iff in Hin.
+    destruct Hin as [m [E Hm]]. inversion E; subst. clear E. fold (sorted_nodes g) in *.
+    apply In_sorted_nodes in Hm. destruct (In_g_nodes_entry g n Hm) as [a Ha].
+    rewrite (adj_of_In g n a ND Ha). destruct (P _ _ Ha) as [NDa Ta].
+    assert (Permutation (sort_by (fun vr : node G * expr G => pos_in G (fst vr) (sorted_nodes g)) Nat.leb a) a) as PA
+      by apply sort_by_perm.
+    split.
+    + eapply Permutation_NoDup; [apply Permutation_map, Permutation_sym, PA | exact NDa].
+    + intros v Hv. apply In_sorted_nodes. apply Ta. eapply Permutation_in; [apply Permutation_map, PA | exact Hv].
+Qed.
+
+Lemma canon_out_first g : out_first G g = true -> out_first G (graph_canon G g) = true.
+Proof.
+  destruct g as [|[[|c] a] tl]; cbn; intros H; try discriminate. unfold graph_canon. cbn [g_nodes map fst sort_by fold_right].
+  fold (g_nodes G tl). set (l := fold_right (ins_by (node_name G) str_leb) [] (g_nodes G tl)).
+  destruct l as [|x l']; cbn; reflexivity.
+Qed.
+
+Lemma cs_canon_ok s : cs_ok G s = true -> cs_ok G (cs_canon G s) = true.
+Proof.
+  unfold cs_ok. cbn. intros H. apply andb_true_iff in H. destruct H as [W O].
+  rewrite (canon_wf _ W), (canon_out_first _ O). reflexivity.
+Qed.
+
+Lemma stmt_canon_ok st : stmt_ok G st = true -> stmt_ok G (stmt_canon G st) = true.
+Proof. destruct st as [a|c]; cbn; [auto | apply cs_canon_ok]. Qed.
+
+(* ---- uniqueness ---- *)
+Lemma names_distinct_NoDup g : names_distinct G g = true -> NoDup (map (node_name G) (g_nodes G g)).
+Proof.
+  unfold names_distinct. generalize (map (node_name G) (g_nodes G g)). induction l as [|x tl IH]; intros H; [constructor|].
+  apply andb_true_iff in H. destruct H as [H1 H2]. constructor; [|apply IH; exact H2].
+  intro Hin. apply negb_true_iff in H1.
+  assert (existsb (String.eqb x) tl = true) as X by (apply existsb_exists; exists x; split; [exact Hin | apply String.eqb_refl]).
+  congruence.
+Qed.
+
+Lemma g_lookup_Some_In g n a : g_lookup G n g = Some a -> In n (g_nodes G g).
+Proof.
+  induction g as [|[m b] tl IH]; cbn; [discriminate|]. destruct (node_eqb G n m) eqn:E; intros H.
+  - apply (node_eqb_eq G GOK) in E. left. symmetry. exact E.
+  - right. apply IH. exact H.
+Qed.
+
+Lemma dod_nodes_perm g h : NoDup (g_nodes G g) -> dod_eqb G g h = true -> Permutation (g_nodes G g) (g_nodes G h).
+Proof.
+  intros ND D. unfold dod_eqb in D. apply andb_true_iff in D. destruct D as [L D]. apply Nat.eqb_eq in L.
+  apply NoDup_Permutation_bis; [exact ND | unfold g_nodes; rewrite !map_length; lia |].
+  intros n Hn. destruct (In_g_nodes_entry g n Hn) as [a Ha]. rewrite forallb_forall in D. specialize (D _ Ha). cbn in D.
+  destruct (g_lookup G n h) as [b|] eqn:E; [|discriminate]. eapply g_lookup_Some_In. exact E.
+Qed.
+
+Lemma adj_lookup_Some_In adj v r : adj_lookup G v adj = Some r -> In (v, r) adj.
+Proof.
+  induction adj as [|[w s] tl IH]; cbn; [discriminate|]. destruct (node_eqb G v w) eqn:E; intros H.
+  - apply (node_eqb_eq G GOK) in E. subst. injection H as H. subst. left. reflexivity.
+  - right. apply IH. exact H.
+Qed.
+
+Lemma NoDup_map_fst_pairs {X Y} (l : list (X * Y)) : NoDup (map fst l) -> NoDup l.
+Proof.
+  induction l as [|[x y] tl IH]; cbn; intros ND; [constructor|]. inversion ND as [|? ? N ND']; subst.
+  constructor; [|apply IH; exact ND']. intro Hin. apply N. apply in_map_iff. exists (x, y). split; [reflexivity | exact Hin].
+Qed.
+
+Lemma adj_same_perm a b : NoDup (map fst a) -> adj_same G a b = true -> Permutation a b.
+Proof.
+  intros ND S. unfold adj_same in S. apply andb_true_iff in S. destruct S as [L S]. apply Nat.eqb_eq in L.
+  apply NoDup_Permutation_bis; [apply NoDup_map_fst_pairs; exact ND | lia |].
+  intros [v r] Hin. unfold adj_sub in S. rewrite forallb_forall in S. specialize (S _ Hin). cbn in S.
+  destruct (adj_lookup G v b) as [r'|] eqn:E; [|discriminate]. apply (expr_eqb_eq G GOK) in S. subst r'.
+  apply adj_lookup_Some_In. exact E.
+Qed.
+
+Lemma index_of_inj l : forall a b i, index_of G a l = Some i -> index_of G b l = Some i -> a = b.
+Proof.
+  induction l as [|x tl IH]; cbn; intros a b i Ha Hb; [discriminate|].
+  destruct (node_eqb G a x) eqn:Ea, (node_eqb G b x) eqn:Eb.
+  - apply (node_eqb_eq G GOK) in Ea, Eb. subst. reflexivity.
+  - injection Ha as Ha. subst i. destruct (index_of G b tl); cbn in Hb; discriminate.
+  - injection Hb as Hb. subst i. destruct (index_of G a tl); cbn in Ha; discriminate.
+  - destruct (index_of G a tl) as [ia|] eqn:Ia; cbn in Ha; [|discriminate].
+    destruct (index_of G b tl) as [ib|] eqn:Ib; cbn in Hb; [|discriminate].
+    injection Ha as Ha. injection Hb as Hb. subst i. injection Hb as Hb. subst ib. eapply IH; eassumption.
+Qed.
+
+Lemma poskey_NoDup ns adj : NoDup (map fst adj) -> (forall v, In v (map fst adj) -> In v ns) ->
+  NoDup (map (poskey ns) adj).
+Proof.
+  induction adj as [|[v r] tl IH]; cbn; intros ND T; [constructor|]. inversion ND as [|? ? N ND']; subst.
+  constructor; [|apply IH; [exact ND' | intros w Hw; apply T; right; exact Hw]].
+  intro Hin. apply in_map_iff in Hin. destruct Hin as [[w s] [E Hw]]. unfold poskey, pos_in in E. cbn in E.
+  destruct (index_of_In G GOK v ns (T v (or_introl eq_refl))) as [i Hi].
+  assert (In w ns) as Hwn by (apply T; right; apply in_map_iff; exists (w, s); split; [reflexivity | exact Hw]).
+  destruct (index_of_In G GOK w ns Hwn) as [j Hj]. rewrite Hi, Hj in E. subst j.
+  apply N. rewrite (index_of_inj ns v w i Hi Hj). apply in_map_iff. exists (w, s). split; [reflexivity | exact Hw].
+Qed.
+
+Lemma graph_canon_unique g h :
+  graph_wf G g = true -> graph_wf G h = true -> names_distinct G g = true ->
+  dod_eqb G g h = true -> graph_canon G g = graph_canon G h.
+Proof.
+  intros Wg Wh NDn D. destruct (graph_wf_props G GOK g Wg) as [NDg Pg]. destruct (graph_wf_props G GOK h Wh) as [NDh Ph].
+  pose proof (dod_nodes_perm g h NDg D) as PN.
+  assert (sorted_nodes g = sorted_nodes h) as ES.
+  { apply (sort_by_unique _ _ str_leb_total str_leb_trans str_leb_antisym); [exact PN | apply names_distinct_NoDup; exact NDn]. }
+  unfold graph_canon. fold (sorted_nodes g) (sorted_nodes h). rewrite <- ES.
+  apply map_ext_in. intros n Hn. f_equal.
+  apply In_sorted_nodes in Hn. destruct (In_g_nodes_entry g n Hn) as [a Ha].
+  assert (In n (g_nodes G h)) as Hnh by (eapply Permutation_in; [exact PN | exact Hn]).
+  destruct (In_g_nodes_entry h n Hnh) as [b Hb].
+  rewrite (adj_of_In g n a NDg Ha), (adj_of_In h n b NDh Hb).
+  unfold dod_eqb in D. apply andb_true_iff in D. destruct D as [_ D]. rewrite forallb_forall in D.
+  specialize (D _ Ha). cbn in D. rewrite (g_lookup_NoDup G GOK h NDh n b Hb) in D.
+  destruct (Pg _ _ Ha) as [NDa Ta].
+  apply (sort_by_unique _ _ nat_leb_total nat_leb_trans nat_leb_antisym).
+  - apply adj_same_perm; assumption.
+  - apply (poskey_NoDup (sorted_nodes g) a NDa). intros v Hv. apply In_sorted_nodes. apply Ta. exact Hv.
+Qed.
+
+(* two systems that == calls equal are encoded identically, whatever order they were built in *)
+Lemma cs_canon_unique a b :
+  graph_wf G (cs_g G a) = true -> graph_wf G (cs_g G b) = true -> names_distinct G (cs_g G a) = true ->
+  cs_eq G a b = true -> cs_canon G a = cs_canon G b.
+Proof.
+  destruct a as [g t], b as [h t']. cbn [cs_g]. intros Wg Wh N E. unfold cs_eq in E. cbn [cs_g cs_t] in E.
+  apply andb_true_iff in E. destruct E as [E _]. apply andb_true_iff in E. destruct E as [Et D].
+  apply (expr_eqb_eq G GOK) in Et. subst t'. unfold cs_canon. cbn [cs_g cs_t].
+  rewrite (graph_canon_unique g h Wg Wh N D). reflexivity.
+Qed.
+
+Definition stmt_names_distinct (st : stmt G) : bool :=
+  match st with SOde _ c => names_distinct G (cs_g G c) | SAssign _ _ => true end.
+
+Lemma stmt_canon_unique a b :
+  stmt_ok G a = true -> stmt_ok G b = true -> stmt_names_distinct a = true ->
+  stmt_eq G a b = true -> stmt_canon G a = stmt_canon G b.
+Proof.
+  destruct a as [x|x], b as [y|y]; cbn; intros A B N E; try discriminate.
+  - rewrite (assign_eqb_eq G GOK x y E). reflexivity.
+  - unfold cs_ok in A, B. apply andb_true_iff in A, B. destruct A as [A _], B as [B _].
+    rewrite (cs_canon_unique x y A B N E). reflexivity.
+Qed.
+
+Lemma stmts_canon_unique : forall l l',
+  forallb (stmt_ok G) l = true -> forallb (stmt_ok G) l' = true -> forallb stmt_names_distinct l = true ->
+  stmts_eq G l l' = true -> map (stmt_canon G) l = map (stmt_canon G) l'.
+Proof.
+  unfold stmts_eq. induction l as [|x tl IH]; destruct l' as [|y tl']; cbn; intros A B N E; try discriminate; [reflexivity|].
+  apply andb_true_iff in A, B, N, E. destruct A as [A1 A2], B as [B1 B2], N as [N1 N2], E as [L E].
+  apply andb_true_iff in E. destruct E as [Exy E].
+  rewrite (stmt_canon_unique x y A1 B1 N1 Exy). f_equal. apply IH; try assumption.
+  apply andb_true_iff. split; assumption.
+Qed.
+End Canon.
+
+(* ------------------------------------------------------------------------------------------ *)
+(* the JSON text is a function of the JSON image                                              *)
+(* ------------------------------------------------------------------------------------------ *)
+Section TextOfImage.
+Variable G : engine.
+
+Lemma norm_items_idem d : norm_items (norm_items d) = norm_items d.
+Proof. pose proof (normalise_idem_all (PDict d)) as E. cbn [normalise] in E. inversion E as [E']. exact E'. Qed.
+
+Lemma derivs_text_of_image de :
+  normalise (derivs_to_py G de) = normalise (derivs_to_py G (DStrs G (derivs_texts G de))).
+Proof. destruct de as [l|l]; cbn; rewrite ?map_map; reflexivity. Qed.
+
+Lemma norm_items_twice tool :
+  map (fun kv : pkey * pyv => let (k, x) := kv in (norm_key k, normalise x)) (norm_items tool) =
+  map (fun kv : pkey * pyv => let (k, x) := kv in (norm_key k, normalise x)) tool.
+Proof. exact (norm_items_idem tool). Qed.
+
+Lemma est_text_of_image e : normalise (est_to_dict G e) = normalise (est_to_dict G (est_json G e)).
+Proof.
+  destruct e as [me ia pu ev mx la isa ni au ke re pr de ie [so rt at_ tool]].
+  unfold est_to_dict, est_json, est_with, common_items.
+  cbn -[normalise derivs_to_py derivs_texts norm_items].
+  cbn [normalise map norm_key app].
+  rewrite <- derivs_text_of_image. rewrite (norm_items_twice tool). reflexivity.
+Qed.
+
+Lemma sim_text_of_image s : normalise (sim_to_dict s) = normalise (sim_to_dict (sim_json s)).
+Proof.
+  destruct s as [n sd [so rt at_ tool]]. unfold sim_to_dict, sim_json, common_items.
+  cbn -[normalise norm_items]. cbn [normalise map norm_key app].
+  rewrite (norm_items_twice tool). reflexivity.
+Qed.
+
+Lemma step_text_of_image s : normalise (step_to_dict G s) = normalise (step_to_dict G (step_json G s)).
+Proof. destruct s as [e|x]; cbn [step_to_dict step_json]; [apply est_text_of_image | apply sim_text_of_image]. Qed.
+
+Lemma steps_text_of_image l : normalise (steps_to_dict G l) = normalise (steps_to_dict G (map (step_json G) l)).
+Proof.
+  unfold steps_to_dict. cbn -[step_to_dict]. rewrite !map_map.
+  rewrite (map_ext _ _ step_text_of_image). reflexivity.
+Qed.
+
+Lemma cats_text_of_image c : normalise (cats_to_py c) = normalise (cats_to_py (cats_json c)).
+Proof.
+  destruct c as [|l|d]; cbn [cats_to_py cats_json normalise]; [reflexivity| |].
+  - f_equal. rewrite map_map. apply map_ext. intros x. symmetry. apply normalise_idem_all.
+  - f_equal. symmetry. apply norm_items_idem.
+Qed.
+
+Lemma column_text_of_image c : normalise (column_to_dict_di G c) = normalise (column_to_dict_di G (column_json G c)).
+Proof.
+  destruct c as [nm ty u sc co ca dr dt de]. unfold column_to_dict_di, column_json. cbn -[normalise cats_to_py cats_json].
+  cbn [normalise map norm_key]. rewrite <- cats_text_of_image. reflexivity.
+Qed.
+
+Lemma di_text_of_image x : normalise (di_to_dict G x) = normalise (di_to_dict G (di_json G x)).
+Proof.
+  destruct x as [cols pa se mt]. unfold di_to_dict, di_json. cbn -[column_to_dict_di].
+  rewrite !map_map. rewrite (map_ext _ _ column_text_of_image). reflexivity.
+Qed.
+
+Lemma model_text_of_image m : normalise (model_to_dict G m) = normalise (model_to_dict G (model_json G m)).
+Proof.
+  destruct m as [nm de ps rv st es di vt dv ot ie].
+  unfold model_to_dict, model_json.
+  cbn [m_parameters m_rvs m_statements m_steps m_datainfo m_value_type m_depvars m_obstrans m_iie].
+  cbn [normalise map norm_key].
+  rewrite <- (steps_text_of_image es), <- (di_text_of_image di).
+  do 9 f_equal. f_equal. f_equal.
+  destruct ie as [x|]; cbn; [|reflexivity]. rewrite (normalise_idem_all x). reflexivity.
+Qed.
+End TextOfImage.
+
+(* ------------------------------------------------------------------------------------------ *)
+(* the key                                                                                    *)
+(* ------------------------------------------------------------------------------------------ *)
+Lemma model_json_blank G m : model_json G (blank G m) = model_json G m.
+Proof. destruct m as [n d ps rv st es [cols p se mt] vt dv ot ie]. reflexivity. Qed.
+Lemma model_canon_blank G m : model_canon G (blank G m) = blank G (model_canon G m).
+Proof. destruct m as [n d ps rv st es [cols p se mt] vt dv ot ie]. reflexivity. Qed.
+
+Section KeyLemmas.
+Variable G : engine.
+Variable dumps : pyv -> string.
+Variable digest : Type.
+Variable H : string -> digest.
+
+Lemma blank_with_meta m nm de pa : blank G (with_meta G m nm de pa) = blank G m.
+Proof. destruct m as [n d ps rv st es [cols p se mt] vt dv ot ie]. reflexivity. Qed.
+
+Lemma key_ignores_meta ds m nm de pa : key G dumps digest H ds (with_meta G m nm de pa) = key G dumps digest H ds m.
+Proof. unfold key. rewrite blank_with_meta. reflexivity. Qed.
+
+Lemma to_dict_ignores_meta m nm de pa : model_to_dict G (with_meta G m nm de pa) = model_to_dict G m.
+Proof. destruct m as [n d ps rv st es [cols p se mt] vt dv ot ie]. reflexivity. Qed.
+
+Lemma key_same_dict ds m m' :
+  model_encode G (blank G m) = model_encode G (blank G m') ->
+  key G dumps digest H ds m = key G dumps digest H ds m'.
+Proof. intros E. unfold key. rewrite E. reflexivity. Qed.
+
+Lemma key_separates_model ds m m' :
+  let d := model_encode G (blank G m) in let d' := model_encode G (blank G m') in
+  dumps_sep dumps d d' -> H_sep H (ds ++ dumps d)%string (ds ++ dumps d')%string ->
+  normalise d <> normalise d' ->
+  key G dumps digest H ds m <> key G dumps digest H ds m'.
+Proof.
+  cbn zeta. intros DS HS N. unfold key. intros E.
+  apply HS in E. apply append_inv_head in E. apply DS in E. contradiction.
+Qed.
+
+Lemma key_separates_dataset ds ds' m :
+  let d := model_encode G (blank G m) in
+  H_sep H (ds ++ dumps d)%string (ds' ++ dumps d)%string -> ds <> ds' ->
+  key G dumps digest H ds m <> key G dumps digest H ds' m.
+Proof.
+  cbn zeta. intros HS N. unfold key. intros E.
+  apply HS in E. apply append_inv_tail in E. contradiction.
+Qed.
+
+(* the key does not see the order in which a system's compartments and flows were entered *)
+Lemma key_order_blind (GOK : engine_ok G) ds m l' :
+  forallb (stmt_ok G) (m_statements G m) = true -> forallb (stmt_ok G) l' = true ->
+  forallb (stmt_names_distinct G) (m_statements G m) = true ->
+  stmts_eq G (m_statements G m) l' = true ->
+  key G dumps digest H ds (with_statements G m l') = key G dumps digest H ds m.
+Proof.
+  intros A B N E. apply key_same_dict.
+  destruct m as [n d ps rv st es [cols p se mt] vt dv ot ie]. cbn [m_statements] in *.
+  unfold model_encode, model_canon, blank, with_statements. cbn.
+  rewrite (stmts_canon_unique G GOK st l' A B N E). reflexivity.
+Qed.
+End KeyLemmas.
+
+Lemma depvars_ok_canon G m : depvars_ok G m -> depvars_ok G (model_canon G (blank G m)).
+Proof. destruct m as [n d ps rv st es [cols p se mt] vt dv ot ie]. intros D kv Hin. apply D. exact Hin. Qed.
+
+(* equal keys (same data) => the two models, put in the encoding order, have the same JSON image *)
+Lemma key_sound_lemma G (GOK : engine_ok G) dumps digest (H : string -> digest) ds m m' :
+  let d := model_encode G (blank G m) in let d' := model_encode G (blank G m') in
+  forallb (stmt_ok G) (m_statements G m) = true -> forallb (stmt_ok G) (m_statements G m') = true ->
+  depvars_ok G m -> depvars_ok G m' ->
+  (forall x, m_iie G m = Some x -> normalise x <> PNone) -> (forall x, m_iie G m' = Some x -> normalise x <> PNone) ->
+  dumps_sep dumps d d' -> H_sep H (ds ++ dumps d)%string (ds ++ dumps d')%string ->
+  key G dumps digest H ds m = key G dumps digest H ds m' ->
+  model_json G (model_canon G m) = model_json G (model_canon G m').
+Proof.
+  cbn zeta. intros W W' D D' I I' DS HS E. unfold key in E.
+  apply HS in E. apply append_inv_head in E. apply DS in E. unfold model_encode in E.
+  assert (forall m0, forallb (stmt_ok G) (m_statements G m0) = true -> depvars_ok G m0 ->
+            (forall x, m_iie G m0 = Some x -> normalise x <> PNone) ->
+            model_from_dict G (normalise (model_to_dict G (model_canon G (blank G m0)))) =
+            Some (model_json G (model_canon G m0))) as A.
+  { intros m0 W0 D0 I0. rewrite (model_json_lemma G GOK).
+    - rewrite model_canon_blank, model_json_blank. reflexivity.
+    - destruct m0 as [n d ps rv st es [cols p se mt] vt dv ot ie]. cbn in *. rewrite forallb_forall in *.
+      intros x Hx. apply in_map_iff in Hx. destruct Hx as [y [Ey Hy]]. subst. apply (stmt_canon_ok G GOK). apply W0. exact Hy.
+    - apply depvars_ok_canon. exact D0.
+    - destruct m0 as [n d ps rv st es [cols p se mt] vt dv ot ie]. exact I0. }
+  pose proof (A m W D I) as Am. pose proof (A m' W' D' I') as Am'. rewrite E in Am. rewrite Am in Am'.
+  assert (forall (x y : model G), Some x = Some y -> x = y) as SI by (intros x y X; inversion X; reflexivity).
+  apply SI. exact Am'.
+Qed.
+
+Lemma key_complete_lemma G dumps digest (H : string -> digest) ds (m m' : model G) :
+  (forall v, v = model_encode G (blank G m) \/ v = model_encode G (blank G m') -> dumps (normalise v) = dumps v) ->
+  model_json G (model_canon G m) = model_json G (model_canon G m') ->
+  key G dumps digest H ds m = key G dumps digest H ds m'.
+Proof.
+  intros DN E. unfold key. do 2 f_equal.
+  rewrite <- (DN (model_encode G (blank G m)) (or_introl eq_refl)), <- (DN (model_encode G (blank G m')) (or_intror eq_refl)).
+  f_equal. unfold model_encode.
+  rewrite (model_text_of_image G (model_canon G (blank G m))), (model_text_of_image G (model_canon G (blank G m'))).
+  rewrite !model_canon_blank, !model_json_blank, E. reflexivity.
+Qed.
+
+(* ------------------------------------------------------------------------------------------ *)
+(* statements of Properties.v whose proofs combine the lemmas above                            *)
+(* ------------------------------------------------------------------------------------------ *)
+Local Open Scope string_scope.
+Lemma estimation_step_roundtrip_thm :
+  forall G (e : eststep G), derivs_canon G (es_derivatives G e) = true ->
+    est_from_dict G (est_to_dict G e) = Some e.
+Proof. intros G e H. rewrite est_roundtrip, (est_flat_canon G e H). reflexivity. Qed.
+
+Lemma execution_steps_roundtrip_thm :
+  forall G (l : list (step G)), forallb (step_canon G) l = true ->
+    steps_from_dict G (steps_to_dict G l) = Some l.
+Proof.
+  intros G l H. rewrite steps_roundtrip. f_equal. apply map_id_on. intros x Hx. apply step_flat_canon.
+  rewrite forallb_forall in H. apply H. exact Hx.
+Qed.
+
+Lemma model_roundtrip_thm :
+  forall G, engine_ok G -> forall m : model G,
+    forallb (stmt_ok G) (m_statements G m) = true -> depvars_ok G m ->
+    forallb (step_canon G) (m_steps G m) = true -> m_iie G m <> Some PNone ->
+    model_from_dict G (model_to_dict G m) = Some (strip G m).
+Proof.
+  intros G GOK m W D C I. rewrite (model_roundtrip G GOK m W D I), (model_flat_canon G m C). reflexivity.
+Qed.
+
+Lemma compartmental_system_to_dict_injective_thm :
+  forall G, engine_ok G -> forall a b : csys G,
+    cs_ok G a = true -> cs_ok G b = true -> cs_to_dict G a = cs_to_dict G b -> a = b.
+Proof.
+  intros G GOK a b A B E. unfold cs_ok in *. apply andb_true_iff in A, B. destruct A as [A1 A2], B as [B1 B2].
+  pose proof (cs_roundtrip_lemma G GOK a A1 A2) as Ra. pose proof (cs_roundtrip_lemma G GOK b B1 B2) as Rb.
+  rewrite E in Ra. rewrite Ra in Rb. inversion Rb. reflexivity.
+Qed.
+
+Lemma parameter_roundtrip_eq_thm :
+  forall p, param_no_nan p = true ->
+    exists q, param_from_dict (param_to_dict p) = Some q /\ param_eqb q p = true.
+Proof. intros p H. exists p. split; [apply param_roundtrip | apply param_eqb_refl; exact H]. Qed.
+
+Lemma random_variables_roundtrip_eq_thm :
+  forall G, engine_ok G -> forall r : rvs G,
+    exists q, rvs_from_dict G (rvs_to_dict G r) = Some q /\ rvs_eqb G q r = true.
+Proof. intros G GOK r. exists r. split; [apply rvs_roundtrip | apply rvs_eqb_refl]; exact GOK. Qed.
+
+Lemma random_variables_json_roundtrip_eq_thm :
+  forall G, engine_ok G -> forall r : rvs G,
+    exists q, rvs_from_dict G (normalise (rvs_to_dict G r)) = Some q /\ rvs_eqb G q r = true.
+Proof. intros G GOK r. exists r. split; [apply rvs_json_lemma | apply rvs_eqb_refl]; exact GOK. Qed.
+
+Lemma compartmental_system_roundtrip_eq_thm :
+  forall G, engine_ok G -> forall s : csys G,
+    cs_ok G s = true -> exists q, cs_from_dict G (cs_to_dict G s) = Some q /\ cs_eq G q s = true.
+Proof.
+  intros G GOK s W. unfold cs_ok in W. apply andb_true_iff in W. destruct W as [W O]. exists s. split.
+  - apply cs_roundtrip_lemma; assumption.
+  - apply (cs_eq_refl G GOK s W).
+Qed.
+
+Lemma stmt_ok_eq_ok G l : forallb (stmt_ok G) l = true -> forallb (stmt_eq_ok G) l = true.
+Proof.
+  rewrite !forallb_forall. intros W x Hx. specialize (W x Hx). destruct x as [a|c]; [reflexivity|].
+  cbn in *. unfold cs_ok in W. apply andb_true_iff in W. apply W.
+Qed.
+
+Lemma statements_roundtrip_eq_thm :
+  forall G (GOK : engine_ok G) (l : list (stmt G)),
+    forallb (stmt_ok G) l = true ->
+    exists q, stmts_from_dict G (stmts_to_dict G l) = Some q /\ stmts_eq G q l = true.
+Proof.
+  intros G GOK l W. exists l. split; [apply stmts_roundtrip | apply stmts_eq_refl; [|apply stmt_ok_eq_ok]]; assumption.
+Qed.
+
+Lemma model_json_roundtrip_thm :
+  forall G, engine_ok G -> forall m : model G,
+    forallb (stmt_ok G) (m_statements G m) = true -> depvars_ok G m ->
+    forallb (step_json_ok G) (m_steps G m) = true ->
+    forallb (column_json_ok G) (di_columns G (m_datainfo G m)) = true ->
+    (forall x, m_iie G m = Some x -> is_json x = true /\ x <> PNone) ->
+    model_from_dict G (normalise (model_to_dict G m)) = Some (strip G m).
+Proof.
+  intros G GOK m W D B C I.
+  rewrite (model_json_lemma G GOK m W D).
+  - f_equal. apply model_json_stable; try assumption. intros x Hx. apply (I x Hx).
+  - intros x Hx. destruct (I x Hx) as [J N]. rewrite (normalise_fix_lemma x J). exact N.
+Qed.
+
 Lemma builder_systems_roundtrip_thm :
   forall G, engine_ok G -> forall (ops : list (bop G)) (t : expr G),
     cs_ok G (mkCs G (run_bops G ops) t) = true /\
@@ -1486,135 +1866,15 @@ Proof.
   unfold cs_ok in W. apply andb_true_iff in W. destruct W as [W O]. apply cs_roundtrip_lemma; assumption.
 Qed.
 
-(* ------------------------------------------------------------------------------------------ *)
-(* the JSON text is a function of the JSON image: equal images => equal keys                   *)
-(* ------------------------------------------------------------------------------------------ *)
-Section TextOfImage.
-Variable G : engine.
-
-Lemma norm_items_idem d : jsonable (PDict d) = true -> norm_items (norm_items d) = norm_items d.
+(* two builder histories whose systems == calls equal are encoded identically *)
+Lemma builder_encoding_order_blind_thm :
+  forall G, engine_ok G -> forall (ops ops' : list (bop G)) (t : expr G),
+    names_distinct G (run_bops G ops) = true ->
+    cs_eq G (mkCs G (run_bops G ops) t) (mkCs G (run_bops G ops') t) = true ->
+    cs_canon G (mkCs G (run_bops G ops) t) = cs_canon G (mkCs G (run_bops G ops') t).
 Proof.
-  intros J. pose proof (normalise_idem_lemma (PDict d) J) as E. cbn [normalise] in E. inversion E as [E']. exact E'.
-Qed.
-
-Lemma dist_text_of_image x : normalise (dist_to_dict G x) = normalise (dist_to_dict G (dist_json G x)).
-Proof. destruct x as [n|[k ns l m v]]; [reflexivity|]. destruct k; reflexivity. Qed.
-
-Lemma map_ext_in' {A B} (f g : A -> B) l : (forall x, In x l -> f x = g x) -> map f l = map g l.
-Proof. intros H. apply map_ext_in. exact H. Qed.
-
-Lemma rvs_text_of_image r : normalise (rvs_to_dict G r) = normalise (rvs_to_dict G (rvs_json G r)).
-Proof.
-  destruct r as [ds e p]. unfold rvs_to_dict, rvs_json. cbn [rv_dists rv_eta rv_eps].
-  cbn -[dist_to_dict hier_to_dict]. rewrite !map_map.
-  rewrite (map_ext _ _ dist_text_of_image). reflexivity.
-Qed.
-
-Definition jsonable_items (d : list (pkey * pyv)) : bool := jsonable (PDict d).
-
-Lemma derivs_text_of_image de :
-  normalise (derivs_to_py G de) = normalise (derivs_to_py G (DStrs G SList (derivs_texts G de))).
-Proof. destruct de as [l|k l]; cbn; rewrite ?map_map; reflexivity. Qed.
-
-Lemma norm_items_twice tool : jsonable_items tool = true ->
-  map (fun kv : pkey * pyv => let (k, x) := kv in (norm_key k, normalise x)) (norm_items tool) =
-  map (fun kv : pkey * pyv => let (k, x) := kv in (norm_key k, normalise x)) tool.
-Proof. intros J. exact (norm_items_idem tool J). Qed.
-
-Lemma est_text_of_image e : jsonable_items (co_tool (es_common G e)) = true ->
-  normalise (est_to_dict G e) = normalise (est_to_dict G (est_json G e)).
-Proof.
-  intros J. destruct e as [me ia pu ev mx la isa ni au ke rk re pk pr de ie [so rt at_ tool]].
-  cbn [es_common co_tool] in J.
-  unfold est_to_dict, est_json, est_with, common_items.
-  cbn -[normalise mkseq derivs_to_py derivs_texts norm_items].
-  cbn [normalise map norm_key app].
-  rewrite !normalise_mkseq. rewrite <- derivs_text_of_image. rewrite (norm_items_twice tool J). reflexivity.
-Qed.
-
-Lemma sim_text_of_image s : jsonable_items (co_tool (ss_common s)) = true ->
-  normalise (sim_to_dict s) = normalise (sim_to_dict (sim_json s)).
-Proof.
-  intros J. destruct s as [n sd [so rt at_ tool]]. cbn [ss_common co_tool] in J.
-  unfold sim_to_dict, sim_json, common_items.
-  cbn -[normalise norm_items]. cbn [normalise map norm_key app].
-  rewrite (norm_items_twice tool J). reflexivity.
-Qed.
-
-Definition step_tool_jsonable (s : step G) : bool :=
-  match s with StEst _ e => jsonable_items (co_tool (es_common G e)) | StSim _ x => jsonable_items (co_tool (ss_common x)) end.
-
-Lemma step_text_of_image s : step_tool_jsonable s = true ->
-  normalise (step_to_dict G s) = normalise (step_to_dict G (step_json G s)).
-Proof. destruct s as [e|x]; cbn [step_to_dict step_json step_tool_jsonable]; [apply est_text_of_image | apply sim_text_of_image]. Qed.
-
-Lemma steps_text_of_image l : forallb step_tool_jsonable l = true ->
-  normalise (steps_to_dict G l) = normalise (steps_to_dict G (map (step_json G) l)).
-Proof.
-  intros J. unfold steps_to_dict. cbn -[step_to_dict]. rewrite !map_map.
-  assert (map (fun x => normalise (step_to_dict G x)) l = map (fun x => normalise (step_to_dict G (step_json G x))) l) as E.
-  { apply map_ext_in. intros x Hx. apply step_text_of_image. rewrite forallb_forall in J. apply J. exact Hx. }
-  rewrite E. reflexivity.
-Qed.
-
-Lemma column_text_of_image c : jsonable (ci_categories G c) = true ->
-  normalise (column_to_dict_di G c) = normalise (column_to_dict_di G (column_json G c)).
-Proof.
-  intros J. destruct c as [nm ty u sc co ca dr dt de]. unfold column_to_dict_di, column_json. cbn -[normalise].
-  cbn [normalise map norm_key]. cbn in J. rewrite (normalise_idem_lemma ca J). reflexivity.
-Qed.
-
-Lemma di_text_of_image x : forallb (fun c => jsonable (ci_categories G c)) (di_columns G x) = true ->
-  normalise (di_to_dict G x) = normalise (di_to_dict G (di_json G x)).
-Proof.
-  intros J. destruct x as [cols pa se mt]. unfold di_to_dict, di_json. cbn -[column_to_dict_di]. cbn in J.
-  rewrite !map_map.
-  assert (map (fun x => normalise (column_to_dict_di G x)) cols = map (fun x => normalise (column_to_dict_di G (column_json G x))) cols) as E.
-  { apply map_ext_in. intros c Hc. apply column_text_of_image. rewrite forallb_forall in J. apply (J _ Hc). }
-  rewrite E. reflexivity.
-Qed.
-
-Definition model_values_jsonable (m : model G) : bool :=
-  forallb step_tool_jsonable (m_steps G m)
-  && forallb (fun c => jsonable (ci_categories G c)) (di_columns G (m_datainfo G m))
-  && match m_iie G m with Some x => jsonable x | None => true end.
-
-Lemma model_text_of_image m : model_values_jsonable m = true ->
-  normalise (model_to_dict G m) = normalise (model_to_dict G (model_json G m)).
-Proof.
-  intros J. unfold model_values_jsonable in J. apply andb_true_iff in J. destruct J as [J J3].
-  apply andb_true_iff in J. destruct J as [J1 J2].
-  destruct m as [nm de ps rv st es di vt dv ot ie]. cbn [m_steps m_datainfo m_iie] in *.
-  unfold model_to_dict, model_json.
-  cbn [m_parameters m_rvs m_statements m_steps m_datainfo m_value_type m_depvars m_obstrans m_iie].
-  cbn [normalise map norm_key].
-  rewrite <- (rvs_text_of_image rv), <- (steps_text_of_image es J1), <- (di_text_of_image di J2).
-  do 9 f_equal. f_equal. f_equal.
-  destruct ie as [x|]; cbn; [|reflexivity]. rewrite (normalise_idem_lemma x J3). reflexivity.
-Qed.
-End TextOfImage.
-
-Lemma key_complete_lemma G dumps digest (H : string -> digest) ds (m m' : model G) :
-  (forall v, v = model_to_dict G (blank G m) \/ v = model_to_dict G (blank G m') -> dumps (normalise v) = dumps v) ->
-  model_values_jsonable G m = true -> model_values_jsonable G m' = true ->
-  jsonable (model_to_dict G (blank G m)) = jsonable (model_to_dict G (blank G m')) ->
-  model_json G m = model_json G m' ->
-  key G dumps digest H ds m = key G dumps digest H ds m'.
-Proof.
-  intros DN J J' JJ E. unfold key. rewrite JJ.
-  destruct (jsonable (model_to_dict G (blank G m'))); [|reflexivity]. do 3 f_equal.
-  rewrite <- (DN (model_to_dict G (blank G m)) (or_introl eq_refl)), <- (DN (model_to_dict G (blank G m')) (or_intror eq_refl)). f_equal.
-  rewrite (model_text_of_image G (blank G m)), (model_text_of_image G (blank G m')).
-  - rewrite !model_json_blank, E. reflexivity.
-  - destruct m' as [n d ps rv st es [cols p se mt] vt dv ot ie]. exact J'.
-  - destruct m as [n d ps rv st es [cols p se mt] vt dv ot ie]. exact J.
-Qed.
-
-Lemma normalise_idem_all v : normalise (normalise v) = normalise v.
-Proof.
-  induction v using pyv_ind'; cbn [normalise]; try reflexivity.
-  - f_equal. rewrite map_map. apply map_ext_Forall. exact H.
-  - f_equal. rewrite map_map. apply map_ext_Forall. exact H.
-  - f_equal. rewrite map_map. apply map_ext_Forall.
-    rewrite Forall_forall in *. intros [k x] Hx. rewrite norm_key_idem. f_equal. apply (H _ Hx).
+  intros G GOK ops ops' t N E.
+  pose proof (builder_cs_ok G GOK ops t) as W. pose proof (builder_cs_ok G GOK ops' t) as W'.
+  unfold cs_ok in W, W'. apply andb_true_iff in W, W'. destruct W as [W _], W' as [W' _].
+  apply (cs_canon_unique G GOK); assumption.
 Qed.
